@@ -31,7 +31,9 @@ MANIFEST = dict(
               "correspondence: model bytes drive the implementation, signatures verified against model bytes",
 )
 
-PINNED = ["C04_phase1_canonical", "C04_phase2_sig", "C04_entry_points_agree", "C04_no_foreign_tx", "C04_nonvacuous"]
+PINNED = ["C04_phase1_canonical", "C04_phase2_sig", "C04_decode_roundtrip", "C04_canon_order_independent",
+          "C04_entry_points_agree", "C04_hash_lengths", "C04_entry_points_agree_sha256", "C04_no_foreign_tx",
+          "C04_nonvacuous", "C04_anchors_type_refuted"]
 
 IMPORTS = "From Coq Require Import String List NArith.\nFrom VLS Require Import Base.Codec Model.Commitment Model.CommitmentCheck.\nImport List.ListNotations.\nOpen Scope N_scope.\n"
 
@@ -61,7 +63,7 @@ def _unframe(flat):
     return secs
 
 
-def _eval_many(terms, name, timeout=1500):
+def _eval_many(terms, name, timeout=600):
     """Evaluate `term_i : list N` for every i with vm_compute, sharded over coqc processes."""
     if not terms:
         return []
@@ -71,7 +73,10 @@ def _eval_many(terms, name, timeout=1500):
     def one(arg):
         k, idxs = arg
         body = IMPORTS + "".join("Eval vm_compute in (%s).\n" % terms[i] for i in idxs)
-        rc, out = lib.coqc_snippet(body, "%s_%d" % (name, k), timeout=timeout)
+        try:
+            rc, out = lib.coqc_snippet(body, "%s_%d" % (name, k), timeout=timeout)
+        except Exception as e:  # subprocess.TimeoutExpired
+            raise lib.Fail("evaluating case file %s_%d: %r" % (name, k, e))
         if rc != 0:
             raise lib.Fail("case file %s_%d did not compile:\n%s" % (name, k, out[-3000:]))
         ls = _lists(out)
@@ -79,10 +84,27 @@ def _eval_many(terms, name, timeout=1500):
             raise lib.Fail("could not parse the answers of %s_%d (%d of %d):\n%s" % (name, k, len(ls), len(idxs), out[-1500:]))
         return list(zip(idxs, ls))
 
-    with ThreadPoolExecutor(max_workers=lib.NCPU) as ex:
+    with ThreadPoolExecutor(max_workers=max(2, lib.NCPU // 2)) as ex:
         res = [x for r in ex.map(one, enumerate(chunks)) for x in r]
     res.sort()
     return [l for _, l in res]
+
+
+def _merge_stats(ss):
+    """sum the numeric fields of the per-shard statistics (dicts are merged recursively)"""
+    def merge(a, b):
+        for k, v in b.items():
+            if isinstance(v, dict):
+                a[k] = merge(a.get(k, {}), v)
+            elif isinstance(v, (int, float)) and not isinstance(v, bool):
+                a[k] = a.get(k, 0) + v
+            else:
+                a[k] = v
+        return a
+    out = {}
+    for s in ss:
+        merge(out, s)
+    return out
 
 
 def run(res):
@@ -92,7 +114,7 @@ def run(res):
     ok, out = lib.build_coq(["theories/Model/CommitmentCheck.vo"])
     if not ok:
         raise lib.Fail("Model/CommitmentCheck.v does not build:\n" + out[-2000:])
-    n = int(os.environ.get("VERIF_C04_N", "96" if quick else "1200"))
+    n = int(os.environ.get("VERIF_C04_N", "64" if quick else "1200"))
     n_digest = 6 if quick else 40
     t0 = time.time()
     gen = lib.run_harness("commit", "gen", res.seed, n, res.tier)
@@ -113,11 +135,15 @@ def run(res):
     mpath = os.path.join(lib.OUT, "c04-model-%s-%d.json" % (res.tier, res.seed))
     json.dump(model, open(mpath, "w"))
     t1 = time.time()
-    # the implementation, driven by the model's bytes
-    run_ = lib.run_harness("commit", "run", res.seed, n, res.tier, extra=["--model", mpath])
-    cases = run_.get("CASE", [])
-    herr = run_.get("HARNESS_ERROR", [])
-    stats = run_.get("STATS", [{}])[0]
+    # the implementation, driven by the model's bytes (case shards in parallel processes)
+    lib.build_harness("commit")
+    nsh = 8
+    with ThreadPoolExecutor(max_workers=nsh) as ex:
+        parts = list(ex.map(lambda k: lib.run_harness("commit", "run", res.seed, n, res.tier,
+                                                      extra=["--model", mpath, "--shard", str(k), str(nsh)]), range(nsh)))
+    cases = sorted((c for p in parts for c in p.get("CASE", [])), key=lambda c: c["idx"])
+    herr = [h for p in parts for h in p.get("HARNESS_ERROR", [])]
+    stats = _merge_stats([p["STATS"][0] for p in parts if p.get("STATS")])
     t2 = time.time()
     # pass B: decode / sign_phase1 of the model on every mutant
     chunk = 150
